@@ -65,7 +65,10 @@ def d_alphabet(P, files, syms, xs=(5,)):
             if i != j:
                 for s in syms:
                     ops.append(("ld", i, j, s))
-                ops += [("gt", i, j), ("cp", i, j), ("mv", i, j)]
+                ops += [("gt", i, j), ("cp", i, j), ("mv", i, j), ("sw", i, j)]
+    for i in range(P):
+        for j in range(P):
+            ops += [("as", i, j), ("ma", i, j)]        # i == j: assignment to itself
     for i in range(P):
         ops.append(("dr", i))
         for x in xs:
@@ -74,20 +77,24 @@ def d_alphabet(P, files, syms, xs=(5,)):
     return ops
 
 
-# slot shape: None | (kind, lib)   kind in "LSR"
+# slot shape: None | (kind, lib)   kind in "LSR"; lib is None once the object was moved from (null shared_ptr)
 def d_applicable(st, op):
     k = op[0]
     n = len(st)
     if k == "op":
         return op[1] < n and st[op[1]] is None
-    if k in ("ld", "gt"):
+    if k == "ld":
+        return op[1] < n and op[2] < n and st[op[1]] is None and st[op[2]] is not None and st[op[2]][0] == "L" and st[op[2]][1] is not None
+    if k == "gt":
         return op[1] < n and op[2] < n and st[op[1]] is None and st[op[2]] is not None and st[op[2]][0] == "L"
     if k in ("cp", "mv"):
         return op[1] < n and op[2] < n and st[op[1]] is None and st[op[2]] is not None
+    if k in ("as", "ma", "sw"):
+        return op[1] < n and op[2] < n and st[op[1]] is not None and st[op[2]] is not None and st[op[1]][0] == st[op[2]][0]
     if k == "dr":
         return op[1] < n and st[op[1]] is not None
     if k == "cl":
-        return op[1] < n and st[op[1]] is not None and st[op[1]][0] == "S"
+        return op[1] < n and st[op[1]] is not None and st[op[1]][0] == "S" and st[op[1]][1] is not None
     return k == "st"
 
 
@@ -105,11 +112,14 @@ def d_shape_step(st, op):
             st[op[1]] = ("S", lib)
     elif k == "gt":
         st[op[1]] = ("R", st[op[2]][1])
-    elif k == "cp":
+    elif k in ("cp", "as"):
         st[op[1]] = st[op[2]]
-    elif k == "mv":
-        st[op[1]] = st[op[2]]
-        st[op[2]] = None
+    elif k in ("mv", "ma"):
+        if op[1] != op[2]:
+            st[op[1]] = st[op[2]]
+            st[op[2]] = (st[op[2]][0], None)
+    elif k == "sw":
+        st[op[1]], st[op[2]] = st[op[2]], st[op[1]]
     elif k == "dr":
         st[op[1]] = None
     return tuple(st)
@@ -153,12 +163,13 @@ class C19(Check):
                  "arbitrary operation lists, for every world of existing files/symbols) + extraction-based differential test against "
                  "the C++: setenv/unsetenv for env::get, and real dlopen of two tiny shared objects and of the program itself with "
                  "dlopen/dlsym/dlclose counted per handle through linker --wrap")
-    level_text = ("Eighteen theorems proved in Coq. env::get: for EVERY getenv function, name and default — a set variable yields its "
+    level_text = ("Nineteen theorems proved in Coq. env::get: for EVERY getenv function, name and default — a set variable yields its "
                   "exact value also when that is the empty string, an unset one yields the default, the no-default form raises "
-                  "exactly when unset. dl: for ALL lists of open / load / get / copy / move / destroy / call operations and every "
-                  "world — dlclose is called at most once per handle and never on NULL, a handle is closed exactly when no owner "
-                  "(library object, symbol, raw handle, or a copy of either) is left, a call through an existing symbol always "
-                  "finds its library mapped, a failed open creates and closes nothing and raises the dl exception with the "
+                  "exactly when unset. dl: for ALL lists of open / load / get / copy-construct / move-construct / copy-assign / "
+                  "move-assign / swap / destroy / call operations and every world — dlclose is called at most once per handle and never on NULL, a handle is closed exactly when no owner "
+                  "(library object, symbol, raw handle, or a copy / assignment target of either) is left, an assignment makes the "
+                  "target hold the source's handle and function and releases its previous one, a moved-from object owns nothing, "
+                  "a call through an owning symbol always finds the library of the function it holds mapped, a failed open creates and closes nothing and raises the dl exception with the "
                   "loader's diagnostic, a failed look-up raises likewise and leaves every handle and owner unchanged, a stale "
                   "pending loader error does not disturb a successful look-up, and after the last owner is gone every library "
                   "ever opened has been closed exactly once. The models follow the constructors statement by statement and are "
@@ -173,15 +184,23 @@ class C19(Check):
                   "What nitro adds — the null checks in env::get, the null-guarded dlclose deleter, the symbol keeping a copy of "
                   "the handle, the exception capturing dlerror() — is modelled, proved, and exercised by the drivers. Names are "
                   "restricted to non-empty byte strings without NUL and '=' (others cannot be set), values to bytes without NUL. "
+                  "dl and symbol have only implicit (member-wise) copy/move operations; the model writes them out, including "
+                  "assignment onto itself (libstdc++'s shared_ptr self-move-assignment is a no-op) and the moved-from state (null "
+                  "shared_ptr, function pointer kept, never called by the driver). Which handle a symbol object keeps alive is not "
+                  "readable through the public API: the driver's 'S<h>' is bookkeeping (get() of the library object at load time, "
+                  "carried along copies/assignments as value semantics demands) — a symbol that owns the wrong library shows up in "
+                  "the per-handle dlclose counts and in 'unmapped' calls, which are observed directly. "
                   "A symbol whose address is legally NULL is not exercised. The correspondence is bounded-exhaustive + sampled, "
                   "not proved.")
     rule = ("env: every sequence of depth 3 (thorough: 4) over {setenv, unsetenv, get with default, get with the defaulted default, "
             "get without default} x 2 names x values/defaults {'', 'x'}, then random sequences with names and values over arbitrary "
             "non-NUL bytes (values also empty and up to 20 000 bytes; thorough 200 000), defaults equal to / different from the "
             "value; dl: every applicable sequence of depth 3 (thorough: 4) over {open a / b / missing, load existing / only-in-a / "
-            "missing symbol, get, copy, move, destroy, call, stale error} on a pool of 3 owners, then random sequences of length "
-            "<= 10 (thorough <= 16) on a pool of 4 that also open the program itself, biased towards symbols outliving their "
-            "library object. The state (dlclose count per handle, owners, dlclose(NULL) count) is observed after EVERY step. "
+            "missing symbol, get, copy-construct, move-construct, copy-assign, move-assign (both also onto itself), swap, destroy, "
+            "call, stale error} on a pool of 3 owners, then random sequences of length <= 10 (thorough <= 16) on a pool of 4 that "
+            "also open the program itself, biased towards symbols outliving their library object, and structured sequences: two "
+            "library objects (same or different files) with a symbol each, then assignments / swaps between the existing objects, "
+            "destructions in random order and calls through every surviving symbol. The state (dlclose count per handle, owners, dlclose(NULL) count) is observed after EVERY step. "
             "Non-trivial: an env case that reads a variable that is set at that moment, or set to ''; a dl case in which a library "
             "object is destroyed while a symbol or copy still owns the handle, or in which an open/look-up fails. "
             "distinct = distinct case line")
@@ -264,7 +283,7 @@ class C19(Check):
                     # prefer loads/copies while a library object exists, and dropping library objects that still have dependants
                     r = rng.random()
                     if r < 0.35:
-                        c2 = [o for o in cand if o[0] in ("ld", "cp", "gt", "mv")]
+                        c2 = [o for o in cand if o[0] in ("ld", "cp", "gt", "mv", "as", "ma", "sw")]
                         cand = c2 or cand
                     elif r < 0.55:
                         c2 = [o for o in cand if o[0] == "dr" and st[o[1]][0] == "L"] + [o for o in cand if o[0] == "cl"]
@@ -275,6 +294,35 @@ class C19(Check):
                 seq.append(o)
                 st = d_shape_step(st, o)
             yield d_case(4, seq), "dl-rand"
+        # ---- dl, structured: two library objects (same or different files) with a symbol each, then assignments / swaps
+        #      between the existing objects, destructions in random order and calls through whatever symbols survive
+        alpha5 = d_alphabet(5, (0, 1, 2), (0, 1, 2, 3), xs=(1, 7))
+        good_sym = {0: (0, 1, 2), 1: (0, 1), 2: (3,)}
+        for _ in range(2500 if quick else 25000):
+            fa, fb = rng.choice([0, 1, 2]), rng.choice([0, 1, 2])
+            seq = [("op", 0, fa), ("op", 1, fb), ("ld", 2, 0, rng.choice(good_sym[fa])), ("ld", 3, 1, rng.choice(good_sym[fb]))]
+            st = (None,) * 5
+            for o in seq:
+                st = d_shape_step(st, o)
+            for _ in range(rng.randint(3, 8)):
+                cand = [o for o in alpha5 if d_applicable(st, o)]
+                r = rng.random()
+                if r < 0.4:
+                    want = ("as", "ma", "sw")
+                elif r < 0.7:
+                    want = ("dr",)
+                elif r < 0.9:
+                    want = ("cl",)
+                else:
+                    want = ("cp", "mv", "gt", "ld", "op", "st")
+                c2 = [o for o in cand if o[0] in want]
+                o = rng.choice(c2 or cand)
+                seq.append(o)
+                st = d_shape_step(st, o)
+            for i in range(5):
+                if st[i] is not None and st[i][0] == "S" and st[i][1] is not None:
+                    seq.append(("cl", i, 3))
+            yield d_case(5, seq), "dl-assign"
         # ---- dl, malformed: anything at any time, also slots that do not exist
         wild = d_alphabet(5, (0, 1, 2, 5), (0, 2, 3, 7))
         for _ in range(300 if quick else 3000):
